@@ -545,7 +545,10 @@ def check_C09(ctx):
              gen.mkarg("strings", "X"), gen.mkarg("strings", "Y")]
     tailtoks = ["-a", "--", "-o", "v", "-", "-z", "--zz=1", "p", "-ao", "-o=v"]
     for sp_dd, sp_plain in [("[-a] -- X...", "[-a] X..."), ("X -- Y...", "X Y..."), ("[-a] [-o] -- X... ", "[-a] [-o] X..."),
-                            ("-- X...", "X..."), ("[-a] X [ -- Y...]", "[-a] X [Y...]")]:
+                            ("-- X...", "X..."), ("[-a] X [ -- Y...]", "[-a] X [Y...]"),
+                            # more than one -- in the spec: the first may sit in a part the line skips
+                            ("[-- X] -- Y...", "[X] Y..."), ("(-o | (-- X)) -- Y...", "(-o | X) Y..."),
+                            ("[-a] -- X -- Y...", "[-a] X Y..."), ("[-a [-- X]] [-o] -- Y...", "[-a [X]] [-o] Y...")]:
         for _ in range(ctx.scale(300, 3000)):
             head = rng.choice([[], ["-a"], ["p"], ["-a", "p"], ["-o", "v"], ["-o", "v", "p"]])
             tail = [rng.choice(tailtoks) for _ in range(rng.randint(0, 4))]
